@@ -18,7 +18,7 @@ func init() {
 	Register("C12", &Info{
 		Run:   runC12,
 		Quick: 10000, Thor: 1200000,
-		Rule: "a world = one fingerprint (every predefined parrot by stratum, randomized, generated specs, fingerprinted copies) against the reference server applying exactly one deviation drawn from the complement of what the ON-WIRE hello offers, with a transcript that stays coherent: TLS 1.3 suite not offered, TLS 1.2 suite announced under TLS 1.3, GREASE suite (the wire value and another one), TLS 1.2 suite not offered, suite that is in Config.CipherSuites but not on the wire, key_share group not offered, group listed without a share answered without HelloRetryRequest, HelloRetryRequest for an unoffered group or for a group already shared, ALPN protocol not offered (or ALPN without an offer, or a protocol that is in Config.NextProtos but not on the wire), compression method 1, a PSK selection without/with a bad index, a certificate compressed with an unadvertised algorithm, legacy session id not echoed, TLS 1.2 ECDHE curve not offered; modifiers: the deviating ServerHello follows an honest HelloRetryRequest; the caller's Config value is shared with a second connection of another fingerprint that is built at a drawn scheduler step while the handshake runs; 1 world in 16 is a real resumption in which the server announces a selected_identity beyond the identities on the wire (1 = exactly one past the end, 2, 7, 65535); 1 world in 16 is a TLS 1.2 ticket resumption history: the first connection negotiates a protocol, the second (same cache and name, possibly another fingerprint) offers an ALPN list without it and the resuming server answers with the previous connection's protocol or a never-offered one; 1 world in 8 applies no deviation and must complete (reference-server sanity); oracle: with a deviation the client's Handshake returns an error, no application data is exchanged, and no ConnectionState with HandshakeComplete exposes the unoffered value; non-trivial = a deviation from the complement of the offer was applied; distinct = (fingerprint, deviation, value)",
+		Rule: "a world = one fingerprint (every predefined parrot by stratum, randomized, generated specs, fingerprinted copies) against the reference server applying exactly one deviation drawn from the complement of what the ON-WIRE hello offers, with a transcript that stays coherent: TLS 1.3 suite not offered, TLS 1.2 suite announced under TLS 1.3, GREASE suite (the wire value and another one), TLS 1.2 suite not offered, suite that is in Config.CipherSuites but not on the wire, suite of a session the caller injected with SetSessionState (fake ticket) but that is not on the wire, key_share group not offered, group listed without a share answered without HelloRetryRequest, HelloRetryRequest for an unoffered group or for a group already shared, ALPN protocol not offered (or ALPN without an offer, or a protocol that is in Config.NextProtos but not on the wire), compression method 1, a PSK selection without/with a bad index, a certificate compressed with an unadvertised algorithm, legacy session id not echoed, TLS 1.2 ECDHE curve not offered; modifiers: the deviating ServerHello follows an honest HelloRetryRequest; the caller's Config value is shared with a second connection of another fingerprint that is built at a drawn scheduler step while the handshake runs; 1 world in 16 is a real resumption in which the server announces a selected_identity beyond the identities on the wire (1 = exactly one past the end, 2, 7, 65535); 1 world in 16 is a TLS 1.2 ticket resumption history: the first connection negotiates a protocol, the second (same cache and name, possibly another fingerprint) offers an ALPN list without it and the resuming server answers with the previous connection's protocol or a never-offered one; 1 world in 8 applies no deviation and must complete (reference-server sanity); oracle: with a deviation the client's Handshake returns an error, no application data is exchanged, and no ConnectionState with HandshakeComplete exposes the unoffered value; non-trivial = a deviation from the complement of the offer was applied; distinct = (fingerprint, deviation, value)",
 		Assumptions: []string{"the reference server is a frozen fork of the repository's TLS stack with deviation hooks (sim/refsrv); it is validated in every batch by the no-deviation stratum and, in the self-test, against the standard-library client"},
 		Real:        []string{"utls client from /repo"},
 		Stub:        []string{"reference/byzantine server (sim/refsrv)", "transport, clock, crypto/rand"},
@@ -118,6 +118,30 @@ var deviations = []deviation{
 		}
 		cfg.MaxVersion = refsrv.VersionTLS12
 		cfg.Byz.ForceSuite = s
+		return fmt.Sprintf("%04x", s), true
+	}},
+	{"suite12-of-injected-session", func(of *Offer, h *wire.ClientHello, cfg *refsrv.Config, ccfg *tls.Config, ch *simrt.Chooser) (string, bool) {
+		// the caller installs a TLS 1.2 session (fake ticket, as in the library's examples) whose suite
+		// the fingerprint does not put on the wire; the server does a full TLS 1.2 handshake with
+		// exactly that suite (runC12 installs the session, see below)
+		if !has16(of.Versions, 0x0303) {
+			return "", false
+		}
+		hasTicketExt := false
+		for _, e := range h.Extensions {
+			if e.Type == 35 {
+				hasTicketExt = true
+			}
+		}
+		s, ok := firstNotIn([]uint16{0xc027, 0xc030, 0xc02c, 0x009d, 0xcca8, 0xc014, 0x0035, 0xc02f, 0x002f}, of.Suites)
+		if !ok || !hasTicketExt {
+			return "", false
+		}
+		cfg.MaxVersion = refsrv.VersionTLS12
+		cfg.Byz.ForceSuite = s
+		if ccfg.ClientSessionCache == nil {
+			ccfg.ClientSessionCache = tls.NewLRUClientSessionCache(2) // session injection requires a cache
+		}
 		return fmt.Sprintf("%04x", s), true
 	}},
 	{"suite-in-config-not-on-wire", func(of *Offer, h *wire.ClientHello, cfg *refsrv.Config, ccfg *tls.Config, ch *simrt.Chooser) (string, bool) {
@@ -487,6 +511,18 @@ func runC12(c *Ctx) {
 	}
 	sp := &ConnSpec{ID: f.IDI.ID, Spec: f.Spec(), CCfg: ccfg, Peer: PeerRef, RefCfg: cfg, Payload: [][]byte{[]byte("must-not-be-sent")},
 		Setup: func(l *simnet.Link) { l.Frag = ch.Bool(30, "frag") }}
+	if devName == "suite12-of-injected-session" {
+		var suite uint16
+		fmt.Sscanf(devVal, "%04x", &suite)
+		master := make([]byte, 48)
+		ch.Bytes(master, "injected-master")
+		ticket := make([]byte, ch.Range(16, 200, "injected-ticket-len"))
+		ch.Bytes(ticket, "injected-ticket")
+		sp.Prep = func(u *tls.UConn) error {
+			return u.SetSessionState(tls.MakeClientSessionState(ticket, tls.VersionTLS12, suite, master, nil, nil))
+		}
+		c.Probe("injected-session-suite")
+	}
 	o := RunConn(c, w, sp)
 	c.Finish(w, true)
 	if c.R.Violation != nil {
